@@ -28,3 +28,12 @@ Lemma tie_generated_atomcheck : forall s : Bytes.bytes, GenCommon.bytes_ok s -> 
   option_map (fun r => CGen.C_atomcheck.v_t__type (snd r)) (CGen.C_atomcheck.run (S (List.length s)) (GenCommon.zs s) (Z.of_nat (List.length s)) 1%Z)
   = Some (if existsb Tok.atom_bad s then 2%Z else 1%Z).
 Proof. exact Gen_header.gen_atomcheck_eq. Qed.
+(* doit() of quote.c (the quoting itself) as generated from today's source = the model's doit, for every local part *)
+From NQ Require Tie.Gen_addr Addr.Quote.
+Lemma tie_generated_quote_doit : forall (src : Bytes.bytes) (out : list Z) (outlen : Z), GenCommon.bytes_ok src -> (Z.of_nat (List.length src) < 2 ^ 30)%Z ->
+  (Z.of_nat (List.length out) < 2 ^ 32)%Z -> (0 <= outlen)%Z ->
+  option_map (fun r => (fst r, CGen.C_quote_doit.v_saout__len (snd r),
+                        firstn (List.length (Quote.doit src)) (CGen.C_quote_doit.a_saout__s (snd r))))
+    (CGen.C_quote_doit.run (S (List.length src)) out outlen (Z.of_nat (List.length out)) (GenCommon.zs src) (Z.of_nat (List.length src)) 1%Z)
+  = Some (1%Z, Z.of_nat (List.length (Quote.doit src)), GenCommon.zs (Quote.doit src)).
+Proof. exact Gen_addr.gen_quote_doit_eq. Qed.
